@@ -532,7 +532,8 @@ where
                     PoeticNumberLiteralIteratorItem::SuffixedWord(s, self.greedily_match_suffixes())
                 })
                 .unwrap_or_else(|| PoeticNumberLiteralIteratorItem::Word(s)),
-            PoeticNumberLiteralElem::WordSuffix(_) => unreachable!(),
+            // a suffix with no word before it (`x is's a`, `x is . -b`) counts as a word of its own
+            PoeticNumberLiteralElem::WordSuffix(s) => PoeticNumberLiteralIteratorItem::Word(s),
         })
     }
 }
